@@ -19,6 +19,7 @@ import (
 	"bytes"
 	"errors"
 	"fmt"
+	"math"
 	"reflect"
 	"sort"
 	"sync"
@@ -1243,6 +1244,18 @@ func candidateRIB(a *aftpb.Afts) (*aft.RIB, error) {
 	return nr, nil
 }
 
+// validateDeleteKey checks the key of an entry that is to be deleted against the
+// schema. rr is a RIB that contains only the (otherwise empty) entry being deleted.
+func validateDeleteKey(rr *aft.RIB) error {
+	if err := rr.Afts.Validate(&ytypes.LeafrefOptions{
+		IgnoreMissingData: true,
+		Log:               false,
+	}); err != nil {
+		return fmt.Errorf("invalid key for entry to be deleted, %v", err)
+	}
+	return nil
+}
+
 // AddIPv4 adds the IPv4 entry described by e to the RIB. If the explicitReplace
 // argument is set to true, the entry is checked for existence before it is replaced
 // otherwise, replaces are implicit. It returns a bool that indicates whether the
@@ -1365,6 +1378,9 @@ func (r *RIBHolder) DeleteIPv4(e *aftpb.Afts_Ipv4EntryKey) (bool, *aft.Afts_Ipv4
 
 	rr := &aft.RIB{}
 	rr.GetOrCreateAfts().GetOrCreateIpv4Entry(e.GetPrefix())
+	if err := validateDeleteKey(rr); err != nil {
+		return false, nil, err
+	}
 	if r.checkFn != nil {
 		ok, err := r.checkFn(constants.Delete, rr)
 		switch {
@@ -1512,6 +1528,9 @@ func (r *RIBHolder) DeleteIPv6(e *aftpb.Afts_Ipv6EntryKey) (bool, *aft.Afts_Ipv6
 
 	rr := &aft.RIB{}
 	rr.GetOrCreateAfts().GetOrCreateIpv6Entry(e.GetPrefix())
+	if err := validateDeleteKey(rr); err != nil {
+		return false, nil, err
+	}
 	if r.checkFn != nil {
 		ok, err := r.checkFn(constants.Delete, rr)
 		switch {
@@ -1685,12 +1704,18 @@ func (r *RIBHolder) DeleteMPLS(e *aftpb.Afts_LabelEntryKey) (bool, *aft.Afts_Lab
 		return false, nil, fmt.Errorf("unsupported label type %T, only uint64 labels are supported, %v", e, e)
 	}
 
+	if e.GetLabelUint64() > math.MaxUint32 {
+		return false, nil, fmt.Errorf("invalid MPLS label %d", e.GetLabelUint64())
+	}
 	lbl := uint32(e.GetLabelUint64())
-
-	de := r.retrieveMPLS(lbl)
 
 	rr := &aft.RIB{}
 	rr.GetOrCreateAfts().GetOrCreateLabelEntry(aft.UnionUint32(lbl))
+	if err := validateDeleteKey(rr); err != nil {
+		return false, nil, err
+	}
+
+	de := r.retrieveMPLS(lbl)
 
 	if r.checkFn != nil {
 		ok, err := r.checkFn(constants.Delete, rr)
